@@ -16,6 +16,9 @@ pub struct Recorder {
     /// Which event kinds to keep (`None` = all).
     pub keep: Option<Vec<String>>,
     pub count: AtomicU64,
+    /// Worker threads started / ended (normally or by a panic), from the `worker` events.
+    pub workers_started: AtomicU64,
+    pub workers_finished: AtomicU64,
 }
 
 /// Seeded perturbation: sleep at hook points depending on (seed, thread, counter).
@@ -54,10 +57,18 @@ impl Session {
             events: Mutex::new(Vec::new()),
             keep,
             count: AtomicU64::new(0),
+            workers_started: AtomicU64::new(0),
+            workers_finished: AtomicU64::new(0),
         });
         let rec2 = rec.clone();
         let observer: renoir::verif::Observer = Arc::new(move |seq, ev| {
             rec2.count.fetch_add(1, Ordering::Relaxed);
+            if ev.get("ev").and_then(|v| v.as_str()) == Some("worker") {
+                match ev.get("what").and_then(|v| v.as_str()) {
+                    Some("start") => rec2.workers_started.fetch_add(1, Ordering::SeqCst),
+                    _ => rec2.workers_finished.fetch_add(1, Ordering::SeqCst),
+                };
+            }
             if let Some(keep) = &rec2.keep {
                 let k = ev.get("ev").and_then(|v| v.as_str()).unwrap_or("");
                 if !keep.iter().any(|x| x == k) {
